@@ -214,6 +214,11 @@ def runBatches [BEq κ] (style : Style) (ikey : ρ → Int) (ekey : ρ → κ) (
       | .error e => .error e
       | .ok more => .ok (rows ++ more)
 
+/-- `Insert._sort_by_parameter_order` after a chain of generative `returning(...)` /
+    `return_defaults(...)` calls: each call may switch the flag on, none switches it off -/
+def sortFlagAfter (chain : List Bool) : Bool :=
+  chain.foldl (fun acc f => acc || f) false
+
 /-! ## compile-time sentinel selection tables (`_get_sentinel_column_for_table`) -/
 
 /-- `_SentinelDefaultCharacterization` -/
